@@ -87,6 +87,15 @@ def handle : Sexp → Sexp
         | some r => kindOut r
         | none => .atom "assert"
     | _, _ => .atom "bad-case"
+  -- `utils._kind_at_latest_version(k)` alone
+  | .list [.atom "up", ek] =>
+    match parseKind ek with
+    | some k =>
+      if !(k.wf T) then .atom "reject"
+      else match kindAtLatest T k with
+        | some r => kindOut r
+        | none => .atom "assert"
+    | none => .atom "bad-case"
   | .list [.atom "sk", .atom cls] =>
     match findDecl cls with
     | some d =>
